@@ -516,6 +516,7 @@ func cvttsd2sq(v float64) int64 {
 // ---- strings ----
 
 func (in *Interp) cells(s *Str) []*Term {
+	s.fix()
 	if s.c != nil {
 		return s.c
 	}
@@ -548,6 +549,8 @@ func (in *Interp) mkStr(c []*Term) *Str {
 }
 
 func (in *Interp) strConcat(x, y *Str) *Str {
+	x.fix()
+	y.fix()
 	if x.c == nil && y.c == nil {
 		return &Str{s: x.s + y.s}
 	}
@@ -561,6 +564,10 @@ func (in *Interp) strConcat(x, y *Str) *Str {
 }
 
 func (in *Interp) strSlice(x *Str, l, h int) *Str {
+	if x.alias != nil {
+		// a substring of an aliasing string aliases the same bytes
+		return &Str{alias: x.alias[l:h:h]}
+	}
 	if x.c == nil {
 		return &Str{s: x.s[l:h]}
 	}
@@ -568,6 +575,8 @@ func (in *Interp) strSlice(x *Str, l, h int) *Str {
 }
 
 func (in *Interp) strEq(x, y *Str) *Term {
+	x.fix()
+	y.fix()
 	if x.Len() != y.Len() {
 		return in.tt.Bool(false)
 	}
@@ -587,6 +596,8 @@ func (in *Interp) strEq(x, y *Str) *Term {
 
 // strLess: x < y (or <= if orEq), lexicographic on bytes.
 func (in *Interp) strLess(x, y *Str, orEq bool) *Term {
+	x.fix()
+	y.fix()
 	if x.c == nil && y.c == nil {
 		if orEq {
 			return in.tt.Bool(x.s <= y.s)
@@ -617,6 +628,7 @@ func (in *Interp) cellsLess(xc, yc []*Term, orEq bool) *Term {
 
 func (in *Interp) strIndex(fr *frame, s *Str, idx *Term, it types.Type) Value {
 	idx = in.idx64(idx, it)
+	s.fix()
 	n := s.Len()
 	in.boundsCheck(fr, idx, n, false, "index")
 	if idx.IsConst() {
@@ -928,16 +940,15 @@ func (in *Interp) callBuiltin(fr *frame, fn *ssa.Builtin, args []Value) Value {
 		if p.sym != nil || p.i+n > len(full) {
 			unsupported("unsafe.String beyond allocation")
 		}
-		c := make([]*Term, n)
-		for i := 0; i < n; i++ {
-			c[i] = full[p.i+i].(*Term)
-		}
-		// Note: a Go unsafe.String aliases the bytes; here it is a snapshot.
-		return in.mkStr(c)
+		// a Go unsafe.String aliases the bytes: later writes to them show through
+		return &Str{alias: full[p.i : p.i+n : p.i+n]}
 	case "StringData":
 		s := args[0].(*Str)
 		if s.Len() == 0 {
 			return Ptr{base: []Value{in.byteC[0]}}
+		}
+		if s.alias != nil {
+			return Ptr{base: s.alias, i: 0}
 		}
 		b := in.strToBytes(s)
 		return Ptr{base: b, i: 0}
